@@ -52,6 +52,15 @@ def cases(tier, seed, prep=None):
     for i in range(n_random):
         out.append({"kind": "random", "seed": seed * 1000003 + 500000 + i, "ndrops": [1, 2, 3, 4, 5, 6],
                     "min_msgs": 1})
+    # "last words": a message submitted while the connection is down (or dying), directly followed by close(); once the
+    # client is connected again the message must reach the peer like any other that the server has not echoed
+    for i in range(40 if tier == "quick" else 1200):
+        out.append({"kind": "lastwords", "seed": seed * 1000003 + 599000 + i, "who": "AB"[i % 2], "how": ["down", "inflight", "unnoticed"][i // 2 % 3], "min_msgs": 1})
+    # very long sessions (hundreds of messages each way) with reconnects in the middle: anything keyed by a short
+    # per-message tag, a bounded memory or a counter shows only here
+    for i in range(4 if tier == "quick" else 60):
+        out.append({"kind": "random", "seed": seed * 1000003 + 598000 + i, "ndrops": [2, 3], "min_msgs": 500, "max_msgs": 650, "max_size": 6,
+                    "late_drops": True, "very_long": True})
     # one very large message in the session (0.3 - 2 MB)
     for i in range(8 if tier == "quick" else 150):
         out.append({"kind": "random", "seed": seed * 1000003 + 597000 + i, "ndrops": [0, 1, 2], "min_msgs": 1, "max_msgs": 3,
@@ -67,9 +76,12 @@ def cases(tier, seed, prep=None):
 
 def run_case(spec):
     sub = dict(spec)
-    if spec["kind"] in ("pingtimeout", "outage"):
+    if spec["kind"] in ("pingtimeout", "outage", "lastwords"):
         sub["kind"] = "plain"
+    from ..env import client_link
+    from ..monitors import state_of
     world, drv, sch, cfg = build_case(sub, max_msgs=spec.get("max_msgs", 8), max_size=spec.get("max_size", 300))
+    rng = world.work_rng
     window_sends = [0]
     if spec["kind"] == "pingtimeout":
         from ..env import client_link, rc_of
@@ -102,6 +114,39 @@ def run_case(spec):
         sch.hook = hook
         orig_all_sent = drv.all_sent
         drv.all_sent = lambda: orig_all_sent() and held["payload"] is None
+    lastwords = {"payload": None, "sent_at": None}
+    if spec["kind"] == "lastwords":
+        sch.faults = []
+
+        def last_words():
+            who_ = drv.app(spec["who"])
+            if not drv.all_delivered() or who_.close_calls:
+                sch.faults.append((world.step + 15, last_words, "last words (waiting for the exchange to finish)"))
+                sch.faults.sort(key=lambda f: f[0])
+                return
+            payload = b"%s:last-words:" % spec["who"].encode() + rng.randbytes(8)
+            if spec["how"] == "down":
+                drv.drop(spec["who"])                 # the connection is gone when the application speaks
+                who_.send(payload)
+                lastwords["state"] = state_of(who_.w._boss._M)
+                who_.close()
+            elif spec["how"] == "unnoticed":
+                # the connection is dead, but nobody has been told yet (the websocket ping timeout finds out later)
+                drv.drop(spec["who"], how="blackhole")
+                who_.send(payload)
+                lastwords["state"] = state_of(who_.w._boss._M)
+                who_.close()
+            else:
+                who_.send(payload)                    # submitted, still in the client's write buffer ...
+                link_ = client_link(world, who_.w)
+                if link_ is not None:
+                    link_.ends[0].outbuf.clear()      # ... when the connection dies
+                    world.reactor.cut(link_)
+                lastwords["state"] = state_of(who_.w._boss._M)
+                who_.close()
+            lastwords["payload"] = payload
+            lastwords["sent_at"] = world.step
+        sch.faults.append((rng.randint(120, 400), last_words, "last words"))
     if spec.get("late_drops"):
         # move the connection losses behind the bulk of the messages
         sch.faults = [(k + 400 + 150 * i, fn, lab) for i, (k, fn, lab) in enumerate(sch.faults)]
@@ -125,7 +170,12 @@ def run_case(spec):
                 outage["over"] = True
             world.reactor.callLater(spec["seconds"], end_outage)
         sch.faults.append((spec["at"], begin_outage, "outage of %d s for %s" % (spec["seconds"], spec["who"])))
-    sch.run(1200 if not spec.get("late_drops") else 6000, until=(drv.all_delivered if not spec.get("late_drops") else (lambda: drv.all_delivered() and not sch.faults)))
+    if spec["kind"] == "lastwords":
+        sch.run(3000, until=lambda: lastwords["payload"] is not None)
+        # the plan now has one more entry: the last words
+        drv.plan[spec["who"]].append((lastwords["payload"], "any")) if lastwords["payload"] is not None else None
+    else:
+        sch.run(1200 if not spec.get("late_drops") else 6000, until=(drv.all_delivered if not spec.get("late_drops") else (lambda: drv.all_delivered() and not sch.faults)))
     if spec["kind"] == "outage":
         sch.drain(spec["seconds"] + 5.0, 40000, until=lambda: outage["over"])
     if spec["kind"] == "pingtimeout":
@@ -159,6 +209,8 @@ def run_case(spec):
                 viol.append({"key": "C09/event-repeated/" + k, "msg": "%s saw %s %d times" % (app.name, k, kinds.count(k)),
                              "witness": wit()})
         errs = [k for k in kinds if k.endswith("-err") or k == "closed"]
+        if errs and app.close_calls and app.close_results and app.close_results[0] == "happy":
+            errs = []          # (the application closed it itself, and was told so)
         if errs:
             viol.append({"key": "C09/session-died/" + str(app.first("closed") or app.first(errs[0])),
                          "msg": "%s: wormhole closed by itself after reconnects: %s" % (app.name, errs[:3]),
@@ -177,7 +229,17 @@ def run_case(spec):
         what = "events " + ",".join(missing) if missing else "messages"
         if not drv.all_sent():
             what = "sends never became possible; " + what
-        viol.append({"key": "C09/lost/" + ("events" if missing else "messages"),
+        lw_key = None
+        if lastwords["payload"] is not None and not missing:
+            peer_ = drv.app("B" if spec["who"] == "A" else "A")
+            if peer_.msgs == [m_ for m_ in drv.app(spec["who"]).sent if m_ != lastwords["payload"]]:
+                # one mechanism, keyed on its own: exactly the message submitted right before close() is missing
+                if lastwords.get("state") == "S2B":
+                    # close() was written to a connection that had already died without anybody knowing
+                    lw_key = "C09/lost/unechoed-message-when-close-was-sent-on-a-dead-connection"
+                else:
+                    lw_key = "C09/lost/message-queued-while-disconnected-then-close"
+        viol.append({"key": lw_key or "C09/lost/" + ("events" if missing else "messages"),
                      "msg": "after the last cut and a %s drain (300 virtual s): %s missing; delivered A=%d/%d B=%d/%d" % (
                          end, what, len(drv.a.msgs), len(drv.b.sent), len(drv.b.msgs), len(drv.a.sent)),
                      "witness": wit()})
@@ -232,6 +294,9 @@ def run_case(spec):
                      "notrans_seen": len(MON.notrans), "log_errors_seen": len(MON.errors),
                      "virtual_seconds_to_complete": int(t_done), "sends_in_closing_window": window_sends[0],
                      "refused_reconnect_attempts": (len([x for x in world.reactor.netlog if x[0] == "refused"]) - outage["attempts_before"]) if spec["kind"] == "outage" else 0,
+                     **({"lastwords_%s_mailbox_%s" % (spec["how"], lastwords.get("state")): 1,
+                         "lastwords_delivered": int(lastwords["payload"] in drv.app("B" if spec["who"] == "A" else "A").msgs)}
+                        if spec["kind"] == "lastwords" and lastwords["payload"] is not None else {}),
                      **{"drop_" + k: v for k, v in drv.drop_kinds.items()}},
         "sets": {"cmds_reissued": sorted({"%s" % c.get("type") for conn in world.server_conns[2:] for c in conn.cmds})},
         "sample": {"spec": spec, "cfg": {k: v for k, v in cfg.items() if not k.startswith("plan")},
